@@ -48,6 +48,9 @@ func checkC12(c *Ctx) {
 	c.Rule("C12-R16", "every press is eventually followed by a buttonless event: a decoded mouse report is never dropped on the way to the queue (a release decodes to a buttonless event like plain motion; every select that sends a decoded event has only shutdown alternatives; = C05-R1)")
 	c.Expect("C12-R16", 1)
 	c.asRule("C05-R1", "C12-R16", func() { c05Sends(c, p) })
+	c.Rule("C12-R17", "a report split across reads is one mouse event: the scan of a freshly read chunk never runs as if the wait had expired (the expiry flag is a constant at each call of the scanner, true only on the timer's branch; = C11-R16)")
+	c.Expect("C12-R17", 1)
+	checkScanExpiry(c, p, "C12-R17")
 	c.Rule("C12-R14", "the decimal accumulator of an SGR report saturates instead of wrapping around: a coordinate with more digits than an int holds is far beyond the screen and is clipped to the last column, not the first")
 	c.Expect("C12-R14", 1)
 	checkSgrAccumulatorSaturates(c, p, "C12-R14")
